@@ -65,7 +65,9 @@ func c03(c *an.Check) {
 				ok, det = false, "verified message does not include the certificate prefix constant"
 			}
 			sig := vc.Call.Args[1]
-			if !p.DependsOn(sig, func(v ssa.Value) bool { return an.ResultCallTo(v, an.X("encoding/asn1", "", "Unmarshal")) != nil || isAllocOf(v, "signedKey") }) {
+			if !p.DependsOn(sig, func(v ssa.Value) bool {
+				return an.ResultCallTo(v, an.X("encoding/asn1", "", "Unmarshal")) != nil || isAllocOf(v, "signedKey")
+			}) {
 				ok, det = false, "signature operand does not come from the decoded extension"
 			}
 		}
@@ -274,7 +276,7 @@ func isAllocOf(v ssa.Value, typeName string) bool {
 
 func init() {
 	register(&Def{ID: "C03", Run: func(c *an.Check) { loadConst(c, "crypto/tls", "certificatePrefix"); c03(c) },
-		Explain: "Decides on SSA: (R1) PubKeyFromCertChain reaches its success return only past {one certificate, key extension found, x509 self-verification, asn1 decode, key parse, PKIX encode, signature err==nil, valid==true}; the verified message is certificatePrefix‖PKIX(chain[0].PublicKey) under the key parsed from the extension, which is the key returned; GenerateSignedExtension signs the same construction (MIRROR); the VerifyPeerCertificate closure of ConfigForPeer accepts / publishes the key only past PubKeyFromCertChain ok and (remote==\"\" or remote.MatchesPublicKey(key)); ConfigForPeer always installs that closure; (WHO) InsecureSkipVerify is set on a tls.Config only in NewIdentity and Identity.config is used only by NewIdentity/ConfigForPeer; quic.Link.remotePeerID is written only in NewLink from DetermineSessionIdentity(sess) = IDFromPublicKey(PubKeyFromCertChain(TLS peer certificates)).",
-		NotCov:  "x509/TLS/QUIC library behaviour and the value-level claim about forged or re-signed extensions are trusted/not decided.",
+		Explain:     "Decides on SSA: (R1) PubKeyFromCertChain reaches its success return only past {one certificate, key extension found, x509 self-verification, asn1 decode, key parse, PKIX encode, signature err==nil, valid==true}; the verified message is certificatePrefix‖PKIX(chain[0].PublicKey) under the key parsed from the extension, which is the key returned; GenerateSignedExtension signs the same construction (MIRROR); the VerifyPeerCertificate closure of ConfigForPeer accepts / publishes the key only past PubKeyFromCertChain ok and (remote==\"\" or remote.MatchesPublicKey(key)); ConfigForPeer always installs that closure; (WHO) InsecureSkipVerify is set on a tls.Config only in NewIdentity and Identity.config is used only by NewIdentity/ConfigForPeer; quic.Link.remotePeerID is written only in NewLink from DetermineSessionIdentity(sess) = IDFromPublicKey(PubKeyFromCertChain(TLS peer certificates)).",
+		NotCov:      "x509/TLS/QUIC library behaviour and the value-level claim about forged or re-signed extensions are trusted/not decided.",
 		Assumptions: commonAssumptions})
 }
